@@ -927,7 +927,7 @@ def classify(case, witness):
 
 # floors for the call-history workloads added in session 3 (a run in which they were silently skipped is inconclusive)
 _floors_base = floors
-_FLOORS_EXTRA = {'classes': {'history_rerun': 500, 'more_than_64_candidates_per_epoch': 12,
+_FLOORS_EXTRA = {'counters': {'observations_are_the_results_of_an_earlier_decoding': 400}, 'classes': {'history_rerun': 500, 'more_than_64_candidates_per_epoch': 12,
                              'candidates_returned_as_tuple': 100, 'closed_circuit': 300, 'one_candidate_list_object_for_every_epoch': 200, 'candidates_returned_as_ndarray': 100}}
 
 
